@@ -306,12 +306,15 @@ class HashWalker(DagWalker):
 class Fam(object):
     """a generated formula: `phi` Boolean root, `leaf` -> `rep` a substitution that changes it"""
 
-    def __init__(self, env, name, params, phi, leaf, rep, depth, decls):
+    def __init__(self, env, name, params, phi, leaf, rep, depth, decls, term=None):
         self.env, self.name, self.params = env, name, params
         self.phi, self.leaf, self.rep, self.depth, self.decls = phi, leaf, rep, depth, decls
+        self.term = term if term is not None else phi
 
 
-DIAMOND_KINDS = ["bool", "int", "real", "bv", "ite_bool", "ite_int", "ite_real", "ite_bv", "ite_arr", "store", "mixed"]
+DIAMOND_KINDS = ["bool", "int", "real", "bv", "ite_bool", "ite_int", "ite_real", "ite_bv", "ite_arr", "store", "mixed",
+                 "select2d", "str_let", "str_inline"]
+DIAMOND_KMAX = {"mixed": 40, "select2d": 12, "str_let": 30, "str_inline": 7}
 COMB_KINDS = ["and", "or_not", "plus", "times_minus", "bvadd", "bvmix", "ite_bv_then", "ite_int_else", "store",
               "ite_bool", "ite_arr_then"]
 WIDE_KINDS = ["and", "plus", "or_atoms", "bvor_chain"]
@@ -342,6 +345,8 @@ def build_family(env, shape, kind, k):
             return m.LT(t, q)
         if ty.is_bv_type():
             return m.BVULE(t, w)
+        if ty.is_string_type():
+            return m.Equals(t, m.Symbol("s1", types.STRING))
         return m.Equals(m.Select(t, x), y)
 
     if shape == "diamond":
@@ -403,6 +408,25 @@ def build_family(env, shape, kind, k):
             for i in range(k):
                 t = m.Store(t, m.Select(t, m.Int(i)), m.Select(t, m.Int(i + 1)))
             leaf, rep = a, b
+        elif kind == "select2d":        # nested reads of a two-dimensional array: p' = m2[p][p]
+            m2 = m.Symbol("m2", types.ArrayType(INT, ARR))
+            t = x
+            for i in range(k):
+                t = m.Select(m.Select(m2, t), m.Plus(t, m.Int(i % 2)))
+            leaf, rep = x, y
+        elif kind == "str_let":         # string operators that the DAG printer binds with let
+            s0, s1 = m.Symbol("s0", types.STRING), m.Symbol("s1", types.STRING)
+            t = s0
+            for i in range(k):
+                t = m.StrConcat(t, m.StrConcat(t, s1))
+            leaf, rep = s0, s1
+        elif kind == "str_inline":      # string operators that the DAG printer prints in place
+            s0, s1 = m.Symbol("s0", types.STRING), m.Symbol("s1", types.STRING)
+            t = s0
+            for i in range(k):
+                t = [m.StrReplace(t, s1, t), m.StrSubstr(t, m.StrLength(t), m.Int(1)),
+                     m.StrCharAt(m.StrReplace(t, t, s1), m.StrIndexOf(t, s1, m.Int(0)))][i % 3]
+            leaf, rep = s0, s1
         else:  # mixed: all sorts at once
             ti, tb, tv, ta = x, p, v, a
             for i in range(k):
@@ -508,7 +532,8 @@ def build_family(env, shape, kind, k):
         raise ValueError(shape)
     phi = atom(t)
     decls = [x, y, r, q, v, w, a, b] + ps
-    return Fam(env, "%s/%s" % (shape, kind), {"shape": shape, "kind": kind, "k": k}, phi, leaf, rep, depth, decls)
+    return Fam(env, "%s/%s" % (shape, kind), {"shape": shape, "kind": kind, "k": k}, phi, leaf, rep, depth, decls,
+               term=t)
 
 
 def random_dag(env, rng, n):
@@ -612,6 +637,8 @@ def make_ops():
     return ops
 
 
+TEXT_PER_ITEM = 120       # characters of `to_smtlib(daggify=True)` per node or edge (measured maximum: see evidence)
+
 QUADRATIC_OPS = {"size:dag", "size:symbols", "size:bool_dag"}   # callback bodies build sets of all descendants
 
 
@@ -632,6 +659,8 @@ def run_op(ctx, spec, env, fam, fail_at=None, want_full=False):
     pre_memo = sorted(index[k] for k in w.memoization if k in index)
     fd = spec.fun_dict(w) if spec.fun_dict else None
     tap = Tap(w, fun_dict=fd, fail_at=fail_at, limit=20 * (len(order) + sum(len(c) for c in chl)) + 1000)
+    # the free-variables oracle is called from inside the callbacks of other walkers: count its work, too
+    fvo_tap = Tap(env.fvo) if w is not env.fvo else None
     t0 = time.time()
     exc = None
     try:
@@ -643,6 +672,11 @@ def run_op(ctx, spec, env, fam, fail_at=None, want_full=False):
         res = None
     dt = time.time() - t0
     st = tap.restore()
+    fvo_calls = 0
+    if fvo_tap is not None:
+        fvo_tap.restore()
+        fvo_calls = len(fvo_tap.trace)
+    text_len = len(w.stream.getvalue()) if spec.name == "print_dag" else None
     trace = []
     foreign = 0
     for k in tap.trace:
@@ -664,6 +698,7 @@ def run_op(ctx, spec, env, fam, fail_at=None, want_full=False):
         "st": len(w.stack), "m": show_list(full, post_memo), "p": st.pushes, "i": st.pops, "maxstack": st.maxlen,
         "maxcount": max(counts.values()) if counts else 0, "time": dt, "res": res,
         "worst": [order[i] for i, c in counts.items() if c > 1][:1],
+        "fvo_calls": fvo_calls, "text_len": text_len,
     }
     return rec
 
@@ -704,6 +739,16 @@ def compare(ctx, fam, rec, ans, fam_sig):
         ctx.report_s(dict(sig, oracle="visit-count"),
                      "%s invoked a callback %d times on one node of %s (%d distinct nodes, %d invocations)" % (
                          rec["op"], rec["maxcount"], fam.name, rec["nodes"], rec["ncalls"]), replay)
+        bad = True
+    if rec.get("fvo_calls", 0) > 2 * rec["nodes"] + 50:
+        ctx.report_s(dict(sig, oracle="nested-oracle-calls"),
+                     "%s on %s (%d distinct nodes): the free-variables oracle ran %d callbacks inside it" % (
+                         rec["op"], fam.name, rec["nodes"], rec["fvo_calls"]), replay)
+        bad = True
+    if rec.get("text_len") is not None and rec["text_len"] > TEXT_PER_ITEM * (rec["nodes"] + rec["edges"]) + 2000:
+        ctx.report_s(dict(sig, oracle="output-size"),
+                     "DAG print of %s: %d characters for %d nodes and %d edges" % (
+                         fam.name, rec["text_len"], rec["nodes"], rec["edges"]), replay)
         bad = True
     if isinstance(rec["exc"], Runaway) or rec["i"] > 2 * rec["edges"] + 2:
         ctx.report_s(dict(sig, oracle="iterations"), "%s: %d loop iterations > 2*%d+2" % (
@@ -879,6 +924,62 @@ def check_parse(ctx, env, fam, fam_sig, timings):
     return ok
 
 
+def check_big_substitution(ctx, env, fam, fam_sig, timings):
+    """substitutions whose KEY or VALUE is the big (deep / heavily shared) term: `substitute()` validates every key
+    and value (`k in self.manager`); that validation must not walk them."""
+    from pysmt.formula import FormulaManager
+    m = env.formula_manager
+    t = fam.term
+    if t is fam.leaf or env.stc.get_type(t) != env.stc.get_type(fam.rep) or not fam.rep.is_symbol():
+        return
+    calls = [0]
+    orig = FormulaManager.__contains__
+
+    def counting(self, node):
+        calls[0] += 1
+        if calls[0] > 5000:
+            raise Runaway(calls[0])
+        return orig(self, node)
+    for name, mk in (("substitute_big_value", lambda: atom_of(env, fam.rep).substitute({fam.rep: t})),
+                     ("substitute_big_key", lambda: fam.phi.substitute({t: fam.rep}))):
+        calls[0] = 0
+        FormulaManager.__contains__ = counting
+        t0 = time.time()
+        exc = None
+        try:
+            mk()
+        except BaseException as e:     # noqa
+            if isinstance(e, (KeyboardInterrupt, SystemExit)):
+                raise
+            exc = e
+        finally:
+            FormulaManager.__contains__ = orig
+        timings.setdefault(name, []).append((fam.params["shape"], fam.params["kind"], fam.params["k"],
+                                             round(time.time() - t0, 3)))
+        ctx.count("op:" + name)
+        replay = {"family": fam.params, "op": name}
+        sig = dict(fam_sig, op=name)
+        if isinstance(exc, RecursionError):
+            ctx.report_s(dict(sig, oracle="recursion"), "RecursionError in %s on %s" % (name, fam.name), replay)
+        elif isinstance(exc, Runaway) or calls[0] > 8:
+            ctx.report_s(dict(sig, oracle="visit-count"),
+                         "%s on %s: FormulaManager.__contains__ called %s times for a map with one entry" % (
+                             name, fam.name, "more than 5000" if isinstance(exc, Runaway) else calls[0]), replay)
+        elif exc is not None:
+            ctx.report_k("%s on %s raised %r" % (name, fam.name, exc), replay)
+
+
+def atom_of(env, sym):
+    """a small Boolean formula mentioning the symbol"""
+    m = env.formula_manager
+    ty = sym.symbol_type()
+    if ty.is_bool_type():
+        return m.Or(sym, m.Not(sym))
+    if ty.is_array_type():
+        return m.Equals(sym, sym)
+    return m.Equals(sym, sym)
+
+
 def check_tree_walkers(ctx, env, fam, fam_sig, timings):
     """walkers/tree.py (generator-based TreeWalker: HR serialisation, tree-style SMT-LIB printing): not memoising,
     so only run where the tree is as small as the DAG (combs, wide nodes); S = no RecursionError at any depth."""
@@ -984,8 +1085,8 @@ def plan(ctx):
     # diamond chains: every kind, k spread up to 60
     for kind in DIAMOND_KINDS:
         ks = [rng.choice([3, 5, 8]), rng.choice([17, 30, 44]), 60] if not quick else [rng.choice([4, 9, 23, 37]), 60]
-        if kind == "mixed":
-            ks = [min(k, 40) for k in ks]
+        if kind in DIAMOND_KMAX:
+            ks = sorted(set(min(k, DIAMOND_KMAX[kind]) for k in ks))
         for k in ks:
             cases.append(("diamond", kind, k, "all"))
     # combs: full depth for a few kinds (rotating with the seed), 3000 for the others
@@ -1041,6 +1142,8 @@ def run_family(ctx, shape, kind, k, opset, pending, timings, only_op=None):
             ctx.count("op:" + spec.name)
         if shape in ("comb", "wide") and ctx.time_left() > 25 and only_op in (None, "hr_serialize", "print_tree"):
             check_tree_walkers(ctx, env, fam, fam_sig, timings)
+        if ctx.time_left() > 25 and only_op in (None, "substitute_big_value", "substitute_big_key"):
+            check_big_substitution(ctx, env, fam, fam_sig, timings)
         if ctx.time_left() > 25 and only_op in (None, "parse_dag", "print_script"):
             tm = {}
             check_parse(ctx, env, fam, fam_sig, tm)
